@@ -1,5 +1,152 @@
-import CachedModel
+/-
+  C01  Total weight never exceeds the configured cache weight.
+
+  "… every accepted put leaves the total at or below the limit."
+
+  The unconditional statement
+
+      theorem C01_bound : Reach cfg now seeds s → 0 ≤ cfg.maxWeight → s.adm.used ≤ cfg.maxWeight
+
+  is FALSE of the code (`C01_counterexample` below): the `UpdateWeight` command produced by `put_or_update` on an
+  existing key is applied by `CacheWeight::update` (cache_weight.rs:218-234, `workerUpdateWeight`) without any
+  check against the limit and without making space.  What holds, and is proved here for every state, event
+  and oracle of Layer A:
+
+  * `C01_nonneg`                      the total is never negative;
+  * `C01_accepted_put_within_limit`   every ACCEPTED `Put` / `PutWithTTL` leaves the total at or below the limit,
+                                      whatever the total was before (even above the limit);
+  * `C01_bound_step_partial`          every event other than an `UpdateWeight` that raises the weight by more than
+                                      the free space (`SafeUpdate`) preserves `used ≤ max`;
+  * `C01_bound_partial`               hence the bound holds along every history all of whose steps are `SafeUpdate`.
+
+  Missing for the full C01: nothing can be added — the `SafeUpdate` side condition is exactly the defect.
+-/
+import CachedProofs.Lemmas.Inv
 
 namespace Cached
+
+/-- The total is never negative. -/
+theorem C01_nonneg {cfg : Cfg} {now : Nat} {seeds : List Nat} {s : State} (h : Reach cfg now seeds s) :
+    0 ≤ s.adm.used :=
+  (inv_reach h).used_nonneg
+
+/-- The one kind of step that can break the bound: if `ev` is the worker executing `UpdateWeight id w` for a charged
+    `id`, the increase fits in the free space. -/
+def SafeUpdate (s : State) (ev : Ev) : Prop :=
+  ev = .worker → s.worker = .running → ∀ id w h q wk, s.queue = (.updateWeight id w, h) :: q →
+    s.adm.kw.get? id = some wk → w - wk.weight ≤ s.adm.max - s.adm.used
+
+/-- PARTIAL (the full statement, without `SafeUpdate s ev`, is false: `C01_counterexample`).
+    Every event that is not an over-sized `UpdateWeight` preserves `used ≤ max`. -/
+theorem C01_bound_step_partial {s s' : State} {ev : Ev} {o o' : Oracle} {out : Out} (h : Inv s)
+    (hb : s.adm.used ≤ s.adm.max) (hsafe : SafeUpdate s ev) (hs : step s ev o = .ok (s', out, o')) :
+    s'.adm.used ≤ s'.adm.max := by
+  obtain ⟨_, hmax, hcase⟩ := step_effect h hs
+  rcases hcase with ⟨hle, _⟩ | ⟨_, hle | ⟨hev, id, w, hh, q, wk, hw, hq, hg, hu⟩⟩
+  · exact hle
+  · rw [hmax]; exact Int.le_trans hle hb
+  · have := hsafe hev hw id w hh q wk hq hg
+    rw [hmax, hu]; omega
+
+/-- Every accepted put leaves the total at or below the limit — whatever the state before, even one whose total
+    is already above the limit (the eviction loop only reports `accepted` once `max - used ≥ w`). -/
+theorem C01_accepted_put_within_limit {s s' : State} {o o' : Oracle} {kind : String} {ie : Option Nat}
+    {pp : List SKey} {ev : List Evicted} (h : Inv s)
+    (hs : step s .worker o = .ok (s', .worked kind .accepted ie pp ev, o'))
+    (hk : kind = "Put" ∨ kind = "PutWithTTL") : s'.adm.used ≤ s'.adm.max := by
+  obtain ⟨_, _, hcase⟩ := step_effect h hs
+  rcases hcase with ⟨hle, _⟩ | ⟨hno, _⟩
+  · exact hle
+  · exact absurd ⟨rfl, hk⟩ hno
+
+/-- A put that is not accepted (rejected, or `KeyAlreadyExists`) never raises the total. -/
+theorem C01_rejected_put_no_growth {s s' : State} {o o' : Oracle} {kind : String} {st : Status} {ie : Option Nat}
+    {pp : List SKey} {ev : List Evicted} (h : Inv s)
+    (hs : step s .worker o = .ok (s', .worked kind st ie pp ev, o'))
+    (hk : kind = "Put" ∨ kind = "PutWithTTL") (hst : st ≠ .accepted) : s'.adm.used ≤ s.adm.used := by
+  obtain ⟨_, _, hcase⟩ := step_effect h hs
+  rcases hcase with ⟨_, hacc | ⟨p, hp⟩⟩ | ⟨_, hle | ⟨_, id, w, hh, q, wk, hw, hq, hg, hu⟩⟩
+  · cases st <;> simp_all [Out.acceptedPut]
+  · cases hp
+  · exact hle
+  · -- the command was an `UpdateWeight`, whose `kind` is neither "Put" nor "PutWithTTL"
+    exfalso
+    have hs' := hs
+    simp only [step, workerStep, hw, hq, workerUpdateWeight, hg] at hs'
+    split at hs' <;> simp at hs' <;> rcases hk with rfl | rfl <;> simp at hs'
+
+/-- histories all of whose steps are `SafeUpdate` -/
+inductive ReachSafe (cfg : Cfg) (now : Nat) (seeds : List Nat) : State → Prop where
+  | init : ReachSafe cfg now seeds (State.init cfg now seeds)
+  | step {s s' : State} {ev : Ev} {o o' : Oracle} {out : Out} :
+      ReachSafe cfg now seeds s → SafeUpdate s ev → Cached.step s ev o = .ok (s', out, o') →
+      ReachSafe cfg now seeds s'
+
+theorem ReachSafe.reach {cfg : Cfg} {now : Nat} {seeds : List Nat} {s : State} (h : ReachSafe cfg now seeds s) :
+    Reach cfg now seeds s := by
+  induction h with
+  | init => exact Reach.init
+  | step _ _ hs ih => exact Reach.step ih hs
+
+/-- PARTIAL (restricted to `ReachSafe`; false for `Reach`, see `C01_counterexample`).
+    Along every history without an over-sized `UpdateWeight`, the total stays between 0 and the configured weight
+    (`0 ≤ cfg.maxWeight` is asserted by the builder: `cache_weight > 0`). -/
+theorem C01_bound_partial {cfg : Cfg} {now : Nat} {seeds : List Nat} {s : State} (hmax : 0 ≤ cfg.maxWeight)
+    (h : ReachSafe cfg now seeds s) : 0 ≤ s.adm.used ∧ s.adm.used ≤ cfg.maxWeight := by
+  refine ⟨C01_nonneg h.reach, ?_⟩
+  suffices hh : s.cfg = cfg ∧ s.adm.used ≤ s.adm.max by
+    have := (inv_reach h.reach).maxFixed
+    rw [this, hh.1] at hh
+    exact hh.2
+  induction h with
+  | init => exact ⟨rfl, hmax⟩
+  | step hr hsafe hs ih =>
+    have hi := inv_reach hr.reach
+    exact ⟨(step_effect hi hs).1.trans ih.1, C01_bound_step_partial hi ih.2 hsafe hs⟩
+
+/-! ### the defect -/
+
+/-- **Counterexample to the full C01** (recorded defect): with `cache_weight = 10`, put key 1 with weight 5, let
+    the worker accept it, `put_or_update` the same key with weight 300, let the worker apply the `UpdateWeight`:
+    the total is 300 > 10, the acknowledgement says `accepted`, and the state is reachable. -/
+theorem C01_counterexample :
+    ∃ s, Reach { maxWeight := 10, shards := 2, cmdCap := 4, poolSize := 1, bufSize := 2, counters := 2 }
+            1000000000 [1, 2, 3, 4] s ∧
+      s.adm.used = 300 ∧ s.adm.max = 10 ∧ s.acks = [.accepted, .accepted] ∧ ¬ s.adm.used ≤ s.cfg.maxWeight := by
+  have hrun : ∃ s, runEvents (State.init { maxWeight := 10, shards := 2, cmdCap := 4, poolSize := 1, bufSize := 2, counters := 2 }
+              1000000000 [1, 2, 3, 4])
+            [(.putW 0 1 100 5, {}), (.worker, {}), (.upsert 0 1 none (some 300) none false, {}), (.worker, {})]
+          = .ok s ∧ s.adm.used = 300 ∧ s.adm.max = 10 ∧ s.acks = [.accepted, .accepted] ∧
+            ¬ s.adm.used ≤ s.cfg.maxWeight := by
+    refine ⟨_, rfl, ?_⟩
+    decide
+  obtain ⟨s, hr, hrest⟩ := hrun
+  exact ⟨s, reach_runEvents _ Reach.init hr, hrest⟩
+
+/-- the same history, as a direct evaluation -/
+example :
+    (match runEvents (State.init { maxWeight := 10, shards := 2, cmdCap := 4, poolSize := 1, bufSize := 2, counters := 2 }
+              1000000000 [1, 2, 3, 4])
+            [(.putW 0 1 100 5, {}), (.worker, {}), (.upsert 0 1 none (some 300) none false, {}), (.worker, {})] with
+     | .ok s => decide (s.adm.used = 300 ∧ s.adm.used > 10)
+     | _ => false) = true := by decide
+
+/-- The step that breaks the bound is exactly one that `SafeUpdate` excludes. -/
+example :
+    (match runEvents (State.init { maxWeight := 10, shards := 2, cmdCap := 4, poolSize := 1, bufSize := 2, counters := 2 }
+              1000000000 [1, 2, 3, 4])
+            [(.putW 0 1 100 5, {}), (.worker, {}), (.upsert 0 1 none (some 300) none false, {})] with
+     | .ok s => decide (s.worker = .running ∧ s.queue = [(.updateWeight 1 300, some 1)] ∧
+                        s.adm.kw.get? 1 = some ⟨1, 1, 5⟩ ∧ ¬ ((300 : Int) - 5 ≤ s.adm.max - s.adm.used))
+     | _ => false) = true := by decide
+
+/-- Non-vacuity of `C01_accepted_put_within_limit`: an accepted put that needs an eviction (limit 10: 6 then 7). -/
+example :
+    (match runEvents (State.init { maxWeight := 10, shards := 2, cmdCap := 4, poolSize := 1, bufSize := 2, counters := 2 }
+              1000000000 [1, 2, 3, 4])
+            [(.putW 0 1 100 6, {}), (.worker, {}), (.putW 0 2 200 7, {}),
+             (.worker, { dk := [false, false], ids := [1], pops := [some 1] })] with
+     | .ok s => decide (s.adm.used = 7 ∧ s.acks = [.accepted, .accepted] ∧ s.store.keys = [2])
+     | _ => false) = true := by decide
 
 end Cached
